@@ -331,13 +331,29 @@ class _IntChain(nn.Module):
         return self.fc(y.flatten(1))
 
 
-def h_integerize_whole(H, backend, p_a, p_w):
+class _IntDw(nn.Module):
+    """conv -> relu -> depthwise conv -> relu -> flatten -> linear (MPS shares the weight quantizer of a depthwise layer with its producer's)"""
+    def __init__(self):
+        super().__init__()
+        self.c0 = nn.Conv2d(1, 2, 1)
+        self.act0 = nn.ReLU()
+        self.c1 = nn.Conv2d(2, 2, 1, groups=2)
+        self.act1 = nn.ReLU()
+        self.fc = nn.Linear(2, 2)
+
+    def forward(self, x):
+        y = self.act0(self.c0(x))
+        y = self.act1(self.c1(y))
+        return self.fc(y.flatten(1))
+
+
+def h_integerize_whole(H, backend, p_a, p_w, net='chain'):
     """integerize_arch on a whole exported MPS model (real MPS(), export(), integerize_arch() - tracing / GraphModule are library contracts):
     the rewritten graph holds one back-end layer per fake-quantized layer, built from THAT layer's quantizers; the input quantizer is forced
     to integer output (MATCH) or removed together with the ReLUs (MAUPITI); and each integer layer, fed the integer image of what its
     fake-quantized counterpart receives inside the network, reproduces the image of the counterpart's output (the statement of C14).
     Weights concrete, network input symbolic (every integer image)."""
-    user = _IntChain()
+    user = _IntChain() if net == 'chain' else _IntDw()
     k = 1
     for n, p in user.named_parameters():
         vals = []
@@ -405,7 +421,7 @@ def h_integerize_whole(H, backend, p_a, p_w):
                 H.ensure('integerize:last-layer-output-is-the-logits-up-to-the-approximation',
                          H.and_(*[H.le(a, H.add(b, _tol(H, c))) for a, b, c in zip(H.elements(d), H.elements(err), H.elements(fq_out[nme]))]))
             continue
-        acc = torch.nn.functional.conv2d(img_in + off, layer.weight, None) + layer.add_bias.view(vshape) / sc
+        acc = torch.nn.functional.conv2d(img_in + off, layer.weight, None, 1, 0, 1, layer.groups) + layer.add_bias.view(vshape) / sc
         err = torch.abs(acc) * torch.abs(s_w * s_i / s_o - sc / 2 ** layer.shift.flatten()[0])
         d = torch.abs(y_int + off - torch.round(fq_out[nme] / s_o))
         H.ensure('integerize:each-layer-reproduces-the-integer-image-of-its-counterpart-within-one-level-plus-bound',
@@ -445,11 +461,12 @@ PROPERTY = {
 _B = (True, False)
 _BK = 'plinio/methods/mps/quant/backends/'
 HARNESSES = [
-    dict(name='integerize-whole', bounded='one enumerated architecture (conv-relu-conv-relu-flatten-linear), concrete weights; the network input is symbolic (every integer image)',
+    dict(name='integerize-whole', bounded='two enumerated architectures (conv-relu-conv-relu-flatten-linear; the same with a depthwise second convolution), concrete weights; the network input is symbolic (every integer image)',
          fn='h_integerize_whole', property=['C14'],
          functions=[_BK + 'base.py::integerize_arch', _BK + 'base.py::remove_relu', _BK + 'base.py::remove_inp_quantizer', _BK + 'base.py::backend_factory',
                     _BK + 'base.py::IntegerizationTracer.is_leaf_module', 'plinio/methods/mps/quant/nn/conv2d.py::QuantConv2d.export', 'plinio/methods/mps/quant/nn/linear.py::QuantLinear.export'],
-         quick=[dict(backend=b, p_a=8, p_w=8) for b in ('match', 'maupiti')], thorough=[dict(backend=b, p_a=pa, p_w=pw) for b in ('match', 'maupiti') for pa in (8, 4) for pw in (8, 4)],
+         quick=[dict(backend=b, p_a=8, p_w=8) for b in ('match', 'maupiti')] + [dict(backend=b, p_a=8, p_w=8, net='dw') for b in ('match', 'maupiti')],
+         thorough=[dict(backend=b, p_a=pa, p_w=pw, net=n) for b in ('match', 'maupiti') for pa in (8, 4) for pw in (8, 4) for n in ('chain', 'dw')],
          timeout=240, crosscheck=2),
     dict(name='layer-reproduces', bounded='weights / clipping values from concrete tables; the input integer image is symbolic (all of [0, 2^p - 1])', fn='h_layer_reproduces', property=['C14'],
          functions=[_BK + 'match/nn/conv2d.py::MATCHConv2d.__init__', _BK + 'match/nn/conv2d.py::MATCHConv2d.forward', _BK + 'match/nn/linear.py::MATCHLinear.__init__',
